@@ -136,3 +136,12 @@ __CPROVER_ensures (__CPROVER_return_value == 0 ==> (
     harness='void h_mpq_equal (void) {\n%s%s  mpq_srcptr a = &A, b = &B; if (nondet_bool ()) b = a;\n  gk = nondet_long (); gj = nondet_long (); gh = nondet_long ();\n  __gmpq_equal (a, b);\n}' % (mpq_obj('A'), mpq_obj('B')),
     timeout=600,
     selftest=[('__gmpq_equal', r'for \(i = 0; i < den1_size; i\+\+\)', 'for (i = 1; i < den1_size; i++)'), ('__gmpq_equal', r'num1_size = \(\(num1_size\) >= 0 \? \(num1_size\) : -\(num1_size\)\);', 'num1_size = ((num1_size) >= 0 ? (num1_size) : 0);')]))
+
+# ------------------------------------------------------------------ mpq_mul_2exp / mpq_div_2exp: bounded native stand-in (labelled bounded, never counted as proof)
+UNITS.append(dict(
+    name='mpq_2exp_enum', kind='native', props=['C12', 'C05'], source='mpq/md_2exp.c', driver='replay/smallops_enum.c', args=['mpq2exp'],
+    bounded='BOUNDED (not proof): complete enumeration of mpq_mul_2exp / mpq_div_2exp over every canonical num/den pair with num, den from operands of 0..3 limbs over the limb alphabet {0, 1, 5, 2^63, 2^64-5, 2^64-1} '
+            '(den > 0, gcd 1) x 19 counts around the limb boundaries 0..260 x (dst == src, dst != src): 5.0 million calls',
+    desc='[C12][C05] num(dst) * den(src) == num(src) * den(dst) * 2^n (resp. with 2^n on the other side) computed with mpz_mul / mpz_mul_2exp, dst canonical (den > 0, gcd 1, both well formed), src unchanged unless it is the destination - over the whole enumerated space',
+    assumptions=['bounded stand-in: mord_2exp (mpq/md_2exp.c) has no proof unit; the check itself uses mpz_gcd, mpz_mul, mpz_mul_2exp, mpz_cmp of the same library'],
+    timeout=300, selftest=[]))
